@@ -249,4 +249,77 @@ theorem C03_observed_adjacency_recorded (K : Nat) (hK : 4 ≤ K) (reads : List (
     have hne' : ¬ (s.flip = s) := by cases s <;> simp [Dir.flip]
     simpa [hs, hne', Compress.condFlip] using this
 
+/-- **C03 (link lookups are exact).** For every graph, every k-mer and side: the answer of `find_link` satisfies the
+    executable predicate `linkExact` that the check evaluates on the crate's answers — an answer names a node whose terminal
+    k-mer on the reported side is the queried k-mer (reverse-complemented iff flagged flipped, flipped only unstranded,
+    arrival side determined by the flip), and `none` is answered only when no node carries it. -/
+theorem C03_link_exact (g : G D) (km : Seq) (d : Dir) : linkExact g km d (findLink g km d) = true := by
+  cases h : findLink g km d with
+  | some e =>
+    obtain ⟨v, s, f⟩ := e
+    obtain ⟨nd, hv, hterm, hf0, hf1⟩ := findLink_sound g km d v s f h
+    unfold linkExact
+    simp only [hv]
+    cases f with
+    | false =>
+      simp only [Bool.false_eq_true, if_false] at hterm ⊢
+      have hs := hf0 rfl
+      subst hs
+      simp [hterm]
+    | true =>
+      simp only [if_true] at hterm ⊢
+      obtain ⟨h1, h2⟩ := hf1 rfl
+      subst h1
+      simp [h2, hterm]
+  | none =>
+    unfold linkExact
+    simp only [List.all_eq_true, Bool.and_eq_true, bne_iff_ne, ne_eq, Bool.or_eq_true]
+    intro n hn
+    unfold findLink at h
+    cases d with
+    | L =>
+      simp only at h
+      cases h1 : searchKmer g km .R with
+      | some i => rw [h1] at h; cases h
+      | none =>
+        rw [h1] at h
+        have hA : ¬ termKmer g.K n.seq .R = km := by
+          intro e
+          have := (searchKmer_complete g km .R).mpr ⟨n, hn, e⟩
+          rw [h1] at this; cases this
+        refine ⟨hA, ?_⟩
+        cases hst : g.stranded with
+        | true => left; rfl
+        | false =>
+          right
+          simp only [hst, Bool.not_false, if_true] at h
+          cases h2 : searchKmer g (rc km) .L with
+          | some i => rw [h2] at h; cases h
+          | none =>
+            intro e
+            have := (searchKmer_complete g (rc km) .L).mpr ⟨n, hn, e⟩
+            rw [h2] at this; cases this
+    | R =>
+      simp only at h
+      cases h1 : searchKmer g km .L with
+      | some i => rw [h1] at h; cases h
+      | none =>
+        rw [h1] at h
+        have hA : ¬ termKmer g.K n.seq .L = km := by
+          intro e
+          have := (searchKmer_complete g km .L).mpr ⟨n, hn, e⟩
+          rw [h1] at this; cases this
+        refine ⟨hA, ?_⟩
+        cases hst : g.stranded with
+        | true => left; rfl
+        | false =>
+          right
+          simp only [hst, Bool.not_false, if_true] at h
+          cases h2 : searchKmer g (rc km) .R with
+          | some i => rw [h2] at h; cases h
+          | none =>
+            intro e
+            have := (searchKmer_complete g (rc km) .R).mpr ⟨n, hn, e⟩
+            rw [h2] at this; cases this
+
 end Graph
